@@ -6,6 +6,7 @@ package main
 
 import (
 	"fmt"
+	"go/token"
 	"go/types"
 	"os"
 	"regexp"
@@ -719,23 +720,9 @@ func genesisFixedColumns(m *Model, genPkg string) map[string]bool {
 			if sc == nil || !strings.HasSuffix(fnPkgPath(sc), mathPkgSuffix) || !strings.Contains(sc.Name(), "FixedDecFromString") || len(ci.Common().Args) < 1 {
 				continue
 			}
-			ld, ok := ci.Common().Args[0].(*ssa.UnOp)
-			if !ok {
-				continue
+			for _, src := range rowColumnSources(ci.Common().Args[0], 0) {
+				out[src] = true
 			}
-			fa, ok := ld.X.(*ssa.FieldAddr)
-			if !ok {
-				continue
-			}
-			nt := namedOf(fa.X.Type())
-			if nt == nil {
-				continue
-			}
-			st, ok := nt.Underlying().(*types.Struct)
-			if !ok || fa.Field >= st.NumFields() {
-				continue
-			}
-			out[nt.Obj().Name()+"."+st.Field(fa.Field).Name()] = true
 		}
 	}
 	return out
@@ -789,4 +776,58 @@ func ruleGenesisPrecision(c *Ctx, m *Model, r *E1, genPkg string) {
 			}
 		}
 	}
+}
+
+
+// rowColumnSources: the "Type.Field" row columns a string value is loaded from — directly, through a φ, or
+// through a local literal table of (amount, destination) cases that a loop walks over.
+func rowColumnSources(v ssa.Value, depth int) []string {
+	if depth > 6 || v == nil {
+		return nil
+	}
+	if al, fld, ok := tableElemField(v); ok {
+		var out []string
+		for _, row := range tableStores(al) {
+			if sv, has := row[fld]; has {
+				out = append(out, rowColumnSources(sv, depth+1)...)
+			}
+		}
+		return out
+	}
+	switch y := v.(type) {
+	case *ssa.Phi:
+		var out []string
+		for _, e := range y.Edges {
+			out = append(out, rowColumnSources(e, depth+1)...)
+		}
+		return out
+	case *ssa.UnOp:
+		if y.Op != token.MUL {
+			return nil
+		}
+		fa, ok := y.X.(*ssa.FieldAddr)
+		if !ok {
+			return nil
+		}
+		nt := namedOf(fa.X.Type())
+		if nt == nil {
+			return nil
+		}
+		st, ok := nt.Underlying().(*types.Struct)
+		if !ok || fa.Field >= st.NumFields() {
+			return nil
+		}
+		return []string{nt.Obj().Name() + "." + st.Field(fa.Field).Name()}
+	case *ssa.Field:
+		nt := namedOf(y.X.Type())
+		if nt == nil {
+			return nil
+		}
+		st, ok := nt.Underlying().(*types.Struct)
+		if !ok || y.Field >= st.NumFields() {
+			return nil
+		}
+		return []string{nt.Obj().Name() + "." + st.Field(y.Field).Name()}
+	}
+	return nil
 }
